@@ -83,3 +83,20 @@ Definition diag_eval (c : ecase) :=
   (t', compile_checked cfg tt, sem fetch test_custom tt,
    match ec_prog c with Some Pg => Some (eval fetch test_custom Pg, tryeval fetch test_custom (cached_of (ec_avail c)) Pg) | None => None end,
    trysem fetch test_custom (cached_of (ec_avail c)) tt).
+
+(* capacity decision and result only (huge programs): (config, tree, Go's decision, Go's Eval outcome) *)
+Definition chk_capacity (c : config * tree * N * option mres) : list N :=
+  let '(cfg, t, code, r) := c in
+  let t' := optimize test_custom cfg t in
+  match check t' with
+  | inl e => if N.eqb (cerr_code e) code then [] else [2%N]
+  | inr n =>
+    (* number of nodes after event interleaving: two per real node, fast children are not doubled *)
+    let P := compile_cfg cfg t' in
+    if event_max_nodes <? lenZ (nodes P) then (if N.eqb code 3 then [] else [2%N]) else
+    if negb (N.eqb code 0) then [2%N] else
+    match r with
+    | Some o => if mres_eqb (res_to_mres (snd (sem (fun _ _ => Err (EUnbound [])) test_custom t'))) o then [] else [5%N]
+    | None => []
+    end
+  end.
